@@ -3,6 +3,10 @@
 cd "$(dirname "$0")/.." || exit 2
 for d in seeded/*/; do
   id=$(basename "$d"); prop=${id%%-*}
-  res=$(/venv/bin/python tools/try_seed.py "$d" "$prop" quick 2>&1 | grep -E "^check|PATCH FAILED|demo on" | tr '\n' ' ' | cut -c1-200)
-  echo "$id: $res"
+  out=$(/venv/bin/python tools/try_seed.py "$d" "$prop" quick 2>&1)
+  d0=$(echo "$out" | sed -n 's/^demo on unchanged tree: exit \([0-9]*\).*/\1/p')
+  d1=$(echo "$out" | sed -n 's/^demo on changed tree:   exit \([0-9]*\).*/\1/p')
+  ck=$(echo "$out" | sed -n 's/^check .* on changed tree: exit \([0-9]*\).*/\1/p')
+  cl=$(echo "$out" | sed -n 's/^ *clause=\([A-Z_]*\).*/\1/p' | head -1)
+  echo "$id demo_unchanged=$d0 demo_changed=$d1 check_exit=$ck first_clause=$cl $(echo "$out" | grep -c 'PATCH FAILED' | sed 's/^0$//;s/^[1-9].*/PATCH-FAILED/')"
 done
